@@ -331,6 +331,7 @@ func init() {
 					jobs = append(jobs, j)
 				}
 			}
+			mk("VC06Ctor", "ctor")
 			mk("VC06ScenarioEI", "s")
 			mk("VC06ScenarioNested", "s")
 			return jobs
@@ -454,6 +455,16 @@ func init() {
 					mk("VC12Req", fmt.Sprintf("n%d/any", n), n, -1, -1)
 				}
 			}
+			// long data: supplied instructions whose data access can fall anywhere in it
+			for _, n := range []int{5, 6, 8, 12} {
+				for _, d0 := range []int{0x3a, 0x7e, 0xc9, 0xe1, 0x2a, 0x34, 0xcd, 0xed} {
+					d1 := -1
+					if d0 == 0xed {
+						d1 = 0x4b // LD BC,(nn)
+					}
+					mk("VC12Req", fmt.Sprintf("n%d/%02x.%d", n, d0, d1), n, d0, d1)
+				}
+			}
 			encs := reprEncs()
 			if tier == "thorough" {
 				encs = allEncodings()
@@ -497,7 +508,7 @@ func init() {
 			c.Extra["functions_with_back_edge_taken"] = sortedKeys(loops)
 			c.Extra["step_call_graph_acyclic"] = stepCallCycle(c.L) == ""
 		},
-		Bounds: map[string]interface{}{"steps": 1, "encodings": "all 1786 with the ideal bus and with IO == nil; requests: Type and IM arbitrary ints, IFF1 arbitrary, len(Data) 0..4, PC anywhere and PC = 0xFFFF; quick pins the first one or two supplied bytes to 23 opcode/prefix choices, thorough leaves them symbolic", "short_memories": "DumbMemory of symbolic length 0..65536 and DumbIO 0..256, MapMemory with <= 3 arbitrary entries: quick 16 encodings, thorough all"},
+		Bounds: map[string]interface{}{"steps": 1, "encodings": "all 1786 with the ideal bus and with IO == nil; requests: Type and IM arbitrary ints, IFF1 arbitrary, len(Data) 0..4 and 5, 6, 8, 12 (long data, instructions with data accesses), PC anywhere and PC = 0xFFFF; quick pins the first one or two supplied bytes to 23 opcode/prefix choices, thorough leaves them symbolic", "short_memories": "DumbMemory of symbolic length 0..65536 and DumbIO 0..256, MapMemory with <= 3 arbitrary entries: quick 16 encodings, thorough all"},
 		Assume: []string{"Memory non-nil (documented precondition)", "MapMemory initialised (non-nil map)", "liveness of arbitrary programs under Run is outside: Run returns in the iteration in which Step sets HALT (C08)", "log.Printf does not panic"},
 		Stubs:  stepStubs,
 		Rule:   "every implicit/explicit panic site reached on an explored path is an obligation (index, slice bounds, nil dereference, nil map write, type assertion, division, panic); plus 'consumed' obligations for the 856 unsupported encodings; termination = every path ends inside the unwinding/call-depth bounds (loops and recursion are recorded, not forbidden)",
